@@ -31,6 +31,11 @@ type xport struct {
 	once      sync.Once
 	receiving bool // the receive loop is waiting in RecvMessage
 	dirty     int  // received messages released with a populated CapTable
+
+	// window control: the next outgoing message of kind holdKind ('c' Call, 'r' Return) stays inside
+	// send() until release is closed (a slow / back-pressured write)
+	holdKind byte
+	release  chan struct{}
 }
 
 func newXport() *xport {
@@ -55,6 +60,16 @@ func (x *xport) NewMessage(ctx context.Context) (rpccp.Message, func() error, ca
 		b, err := msg.Marshal()
 		if err != nil {
 			return err
+		}
+		x.mu.Lock()
+		var wait chan struct{}
+		if (x.holdKind == 'c' && m.Which() == rpccp.Message_Which_call) || (x.holdKind == 'r' && m.Which() == rpccp.Message_Which_return) {
+			wait = x.release
+			x.holdKind = 0
+		}
+		x.mu.Unlock()
+		if wait != nil {
+			<-wait
 		}
 		x.mu.Lock()
 		x.toPeer = append(x.toPeer, b)
@@ -133,6 +148,8 @@ type world struct {
 	x    *xport
 	conn *rpc.Conn
 
+	ackHold [nsrv]chan struct{} // non-nil: deliveries to server j wait at its gate (are not acknowledged) until it is closed
+
 	mu        sync.Mutex
 	master    [nsrv]*capnp.Client
 	shutCount [nsrv]int
@@ -157,6 +174,49 @@ func (s shutdowner) Shutdown() {
 	s.w.mu.Unlock()
 }
 
+// gate stands in front of local server j: calls received for it are handed on strictly in the
+// order of their arrival, one at a time (the next one after the previous one was acknowledged).
+// server.Server alone admits waiting calls in whatever order its "starting" channel wakes them,
+// which hides a call that overtakes inside the answer queue; the gate makes the order of arrival
+// at the capability the order its implementation sees.  With ackHold armed an arriving call waits
+// here, unacknowledged, until the window is closed.
+type gate struct {
+	w     *world
+	j     int
+	inner *capnp.Client
+
+	mu   sync.Mutex
+	tail chan struct{}
+}
+
+func (g *gate) Send(ctx context.Context, s capnp.Send) (*capnp.Answer, capnp.ReleaseFunc) {
+	return g.inner.SendCall(ctx, s)
+}
+
+func (g *gate) Recv(ctx context.Context, r capnp.Recv) capnp.PipelineCaller {
+	mine := make(chan struct{})
+	g.mu.Lock()
+	prev := g.tail
+	g.tail = mine
+	g.mu.Unlock()
+	g.w.mu.Lock()
+	hold := g.w.ackHold[g.j]
+	g.w.mu.Unlock()
+	if prev != nil {
+		<-prev
+	}
+	if hold != nil {
+		<-hold
+	}
+	pc := g.inner.RecvCall(ctx, r)
+	close(mine)
+	return pc
+}
+
+func (g *gate) Brand() capnp.Brand { return g.inner.State().Brand }
+
+func (g *gate) Shutdown() { g.inner.Release() }
+
 func newWorld(boot bool) *world {
 	w := &world{x: newXport(), pending: map[int]*pend{}, issue: map[int]chan func(){}}
 	for j := 0; j < nsrv; j++ {
@@ -165,7 +225,7 @@ func newWorld(boot bool) *world {
 			Method: capnp.Method{InterfaceID: ifaceID, MethodID: methodID},
 			Impl:   w.impl(j),
 		}}, nil, shutdowner{w, j}, &server.Policy{MaxConcurrentCalls: 512, AnswerQueueSize: 512})
-		w.master[j] = capnp.NewClient(srv)
+		w.master[j] = capnp.NewClient(&gate{w: w, j: j, inner: capnp.NewClient(srv)})
 	}
 	opts := &rpc.Options{}
 	if boot {
@@ -559,4 +619,36 @@ func (w *world) finish() string {
 	s += fmt.Sprintf(",d%d", w.x.dirty)
 	w.x.mu.Unlock()
 	return s
+}
+
+// openWindow arms the interleaving control of a composite event: hold is "c" / "r" (the next
+// Call / Return stays inside the transport's send) or "a<j>" (server j withholds its acks).
+func (w *world) openWindow(hold string) func() {
+	switch hold[0] {
+	case 'c', 'r':
+		ch := make(chan struct{})
+		w.x.mu.Lock()
+		w.x.holdKind = hold[0]
+		w.x.release = ch
+		w.x.mu.Unlock()
+		return func() {
+			w.x.mu.Lock()
+			w.x.holdKind = 0
+			w.x.mu.Unlock()
+			close(ch)
+		}
+	case 'a':
+		j, _ := strconv.Atoi(hold[1:])
+		ch := make(chan struct{})
+		w.mu.Lock()
+		w.ackHold[j%nsrv] = ch
+		w.mu.Unlock()
+		return func() {
+			w.mu.Lock()
+			w.ackHold[j%nsrv] = nil
+			w.mu.Unlock()
+			close(ch)
+		}
+	}
+	return func() {}
 }
